@@ -235,6 +235,8 @@ let () =
               let cs = read_cons c xo.dim in
               let extra = c.t in
               let k = w ^ "/" ^ kind in
+              (* triggering condition attached to the comparisons with the plain widening of the same objects *)
+              let cnd = ":" ^ xo.topo ^ (if xo.lin > 0 then "+lines" else "") in
               (match incl yo xo with
                | Some true ->
                  report (k ^ "/lower") (want true (incl xo r));
@@ -245,7 +247,7 @@ let () =
                   | Some p ->
                     let po = get (int_of_string p) in
                     if t <= 0 then begin
-                      report (k ^ "/upper") (want true (incl r po));
+                      report (k ^ "/upper" ^ cnd) (want true (incl r po));
                       (* every supplied constraint that x satisfies is kept *)
                       List.iter (fun cn ->
                         match timed (fun () -> entails_b (dimn xo) xo.s cn) None with
@@ -254,8 +256,8 @@ let () =
                         | None -> report (k ^ "/keeps") Undecided) cs;
                       (match timed (fun () -> limited_ref (dimn xo) xo.s po.s cs) None with
                        | Some lref ->
-                         if kind = "limited" then report (k ^ "/exact") (want true (equiv_s (dimn xo) r.s lref))
-                         else report (k ^ "/below-limited") (want true (timed (fun () -> incl_sys (dimn xo) r.s lref) None))
+                         if kind = "limited" then report (k ^ "/exact" ^ cnd) (want true (equiv_s (dimn xo) r.s lref))
+                         else report (k ^ "/below-limited" ^ cnd) (want true (timed (fun () -> incl_sys (dimn xo) r.s lref) None))
                        | None -> report (k ^ "/exact") Undecided);
                       if t = 0 && t' <> 0 then report (k ^ "/tokens-count") (Fail "tokens changed from 0")
                     end else begin
